@@ -228,6 +228,8 @@ fn client_main(sh: Arc<Shared>, me: usize, start: usize, mut saved: Vec<Arc<Buil
             sh.cnt("probe_back_to_back_repetition_of_a_call");
         }
         h.events.set(0);
+        h.ticks.set(0);
+        h.connect_steps.set(0);
         h.budget.set(ex.budget);
         h.cancel_at.set(ex.cancel_k);
         let pol = Policy::from_world(step.heap);
@@ -236,6 +238,9 @@ fn client_main(sh: Arc<Shared>, me: usize, start: usize, mut saved: Vec<Arc<Buil
         let out = heap::with_policy(pol, || simhooks::guarded(|| call_built(&l, &r, OPS[step.op as usize], step.pairing, step.f32_, step.clone_ops, step.save)));
         sh.sched.set_in_flight(me, false);
         let events = h.events.get();
+        if matches!(out, Outcome::Cancelled) && h.connect_steps.get() > 0 {
+            sh.cnt("fault_cancellation_fired_inside_ring_assembly");
+        }
         let (outcome, keep): (Outcome<Vec<u64>>, Option<Operand>) = match out {
             Outcome::Ok((img, k)) => (Outcome::Ok(img), k),
             Outcome::Panic(m) => (Outcome::Panic(m), None),
@@ -345,12 +350,14 @@ impl C12World {
                 let r = resolve(step.rhs, pool, &saved).clone();
                 let budget = simhooks::event_budget(geom::edge_count(&l.op) + geom::edge_count(&r.op));
                 h.events.set(0);
+                h.ticks.set(0);
                 h.cancel_at.set(0);
                 h.budget.set(budget);
                 let out = heap::with_policy(Policy::CANON, || simhooks::guarded(|| call_built(&l, &r, OPS[step.op as usize], step.pairing, step.f32_, false, step.save)));
-                let events = h.events.get();
+                let ticks = h.ticks.get();
                 st.inc("reference_calls");
-                let cancel_k = if step.cancel > 0 && events > 0 && matches!(out, Outcome::Ok(_)) { 1 + (step.cancel - 1) % events } else { 0 };
+                // cancellation points: every sweep event and every step of the ring assembly
+                let cancel_k = if step.cancel > 0 && ticks > 0 && matches!(out, Outcome::Ok(_)) { 1 + (step.cancel - 1) % ticks } else { 0 };
                 let outcome = match out {
                     Outcome::Ok((img, keep)) => {
                         if cancel_k == 0 {
@@ -633,7 +640,7 @@ impl World for C12World {
         for (k, v) in sh.counters.lock().unwrap_or_else(|e| e.into_inner()).iter() {
             st.add(k, *v);
         }
-        for k in ["calls_completed", "fault_cancellation_fired_inside_sweep", "fault_heap_policy_calls", "fault_operands_as_temporaries", "fault_thread_retired",
+        for k in ["calls_completed", "fault_cancellation_fired_inside_sweep", "fault_cancellation_fired_inside_ring_assembly", "fault_heap_policy_calls", "fault_operands_as_temporaries", "fault_thread_retired",
             "probe_call_overlapped_other_calls", "probe_first_call_on_fresh_thread", "probe_call_after_cancellation_on_same_thread", "probe_result_fed_back_as_operand"] {
             st.add(k, 0);
         }
